@@ -577,6 +577,36 @@ func c16StateGates(c *Ctx) {
 				}
 			})
 		}
+		// "once": the committed head that was accounted for is remembered, so the next call with the same head updates nothing
+		nAdv := 0
+		for _, fn := range scope {
+			if fn.Blocks == nil {
+				continue
+			}
+			ffl := NewFlow(p, fn)
+			eachInstr(fn, func(in ssa.Instruction) {
+				st, ok := in.(*ssa.Store)
+				if !ok || !ffl.Reachable(in.Block()) {
+					return
+				}
+				fa, ok := st.Addr.(*ssa.FieldAddr)
+				if !ok || !strings.HasSuffix(fieldName(fa.X.Type(), fa.Field), "RepBased.prevCommitHead") {
+					return
+				}
+				sliceEnterHelpers, sliceProg = funcPkgPath(gl), p
+				fromHead := backwardSlice(st.Val, func(v ssa.Value) bool {
+					call, ok := v.(*ssa.Call)
+					return ok && call.Call.StaticCallee() != nil && call.Call.StaticCallee().Name() == "CommittedBlock"
+				})
+				sliceEnterHelpers, sliceProg = "", nil
+				if fromHead {
+					nAdv++
+				}
+			})
+		}
+		if n > 0 && nAdv == 0 {
+			bad = append(bad, "prevCommitHead is never advanced to the committed head that was accounted for")
+		}
 		c.Check(n > 0 && len(bad) == 0, "C16.6", "RepBased.GetLeader: reputations change once per new committed head", p.FuncPos(gl),
 			"a voter's reputation is updated only under prevCommitHead.View() < block.View()",
 			"the update at "+join(bad)+" is not gated by a new committed head: the reputations depend on how often GetLeader was asked, which differs between replicas")
